@@ -4,7 +4,7 @@ from vf import bl
 PROP = "C01"
 LEVEL = "exploration"
 N = {"quick": 2500, "thorough": 160000}
-TIME = {"quick": 40, "thorough": 420}
+TIME = {"quick": 300, "thorough": 420}
 RULE = ("Random broker histories of 5-60 operations {quote, trade(open/add/reduce/close/flip), mark one/all, "
         "valuation, weights, context, rebalance(weights | nr-contracts, with untargeted holdings)} over 1-5 contracts "
         "drawn from built-in and user-defined spot-like (multiplier 0.1..100) and margined (margin 0.004..1) contracts, "
